@@ -167,7 +167,8 @@ pub fn spawn(ctx: &Ctx, script: &AttackScript) {
         let mut own: Option<Own> = None;
         let mut steps = script.steps.clone();
         if let Some(o) = &script.own {
-            steps.push(AttackStep { at_ms: o.at_ms, src: Src::Own, kind: Kind::Syn { cid: o.cid, seq: o.isn } });
+            // (first among the steps of its millisecond: data may ride right behind it)
+            steps.insert(0, AttackStep { at_ms: o.at_ms, src: Src::Own, kind: Kind::Syn { cid: o.cid, seq: o.isn } });
         }
         steps.sort_by_key(|s| s.at_ms);
         let start = tokio::time::Instant::now();
@@ -187,6 +188,10 @@ pub fn spawn(ctx: &Ctx, script: &AttackScript) {
                     if from != target { continue; }
                     let Ok(p) = Pkt::parse(&raw) else { continue };
                     if let Some(o) = own.as_mut() {
+                        // (replies to the attacker's stray SYNs and probes carry other ids)
+                        if p.conn_id != o.id_send.wrapping_sub(1) {
+                            continue;
+                        }
                         o.their_seq = Some(p.seq);
                         if p.typ == codec::ST_DATA || p.typ == codec::ST_FIN {
                             o.rcv.insert(p.seq);
